@@ -28,6 +28,12 @@ Print Assumptions C05_parse_total.
 Theorem C05_arch_roundtrip : forall x a, A1.parse_arch_opt x = Some a -> A1.parse_arch_opt (A1.arch_string a) = Some a.
 Proof. exact A1.arch_opt_roundtrip. Qed.
 Print Assumptions C05_arch_roundtrip.
+(* the blanks AROUND a name do not matter (a folded field arrives as "linux-any\n": repair 54cb699 of the r13 finding - the name used
+   to be split untrimmed, the CPU became "any\n", and the wildcard rendered as "any"), and a name has no blank INSIDE *)
+Theorem C05_arch_blanks_around_the_name : forall w1 x w2,
+  Forall (fun c => A1.is_ws4 c = true) w1 -> Forall (fun c => A1.is_ws4 c = true) w2 -> A1.clean4 x ->
+  A1.parse_arch_opt (w1 ++ x ++ w2) = A1.parse_arch_core x.
+Proof. exact A1.arch_opt_trims. Qed.
 Theorem C05_empty_components_refused : A1.parse_arch_opt (A1.s "--") = None /\ A1.parse_arch_opt (A1.s "linux-") = None /\
   A1.parse_arch_opt [] = None /\ A1.parse_arch_opt (A1.s "-amd64") = None /\ A1.parse_arch_opt (A1.s "a--b") = None /\
   A1.parse_arch_opt (A1.s "linux-any") <> None.
